@@ -662,6 +662,68 @@ func runC17(r *ev.Run) {
 		r.Count("close-vs-compaction:"+point, 1)
 		r.Eval(true, ev.Digest("cvc", point, ci))
 	})
+	// ------------------------------------------------------------------ ownership lasts until Close has finished writing
+	// Close persists the writable memtable before it returns. While that final segment is being written (observed at
+	// the crash:flush.* points inside it) the directory is still owned: the LOCK must be there and a second Open refused.
+	ffPoints := []string{"crash:flush.create.hybrid", "crash:flush.create.vector", "crash:flush.written", "crash:flush.close.hybrid", "crash:flush.added", "flush.registered", "flush.dropped"}
+	r.Cases("close-final-flush", r.Pick(14, 140), func(ci int, rng *rand.Rand) {
+		dir, err := os.MkdirTemp("", "verif-c17f-*")
+		if err != nil {
+			panic(err)
+		}
+		defer os.RemoveAll(dir)
+		point := ffPoints[ci%len(ffPoints)]
+		rep := func(sig, what string) { r.ViolationAt("close-final-flush", ci, sig, "point="+point+": "+what, nil) }
+		s, err := p.open(dir)
+		if err != nil {
+			rep("own.open-fails-on-free-directory", err.Error())
+			return
+		}
+		ids := newIDGen(rng)
+		ids.min = 1 << 24
+		if ci%2 == 1 { // an earlier segment, so the directory is not empty
+			d := genStoreDoc(rng, p, ids.next(), "f")
+			s.AddWithID(d.ID, d.Vec, d.Text, d.Meta)
+			s.Flush()
+		}
+		for i := 0; i < 1+rng.IntN(4); i++ {
+			d := genStoreDoc(rng, p, ids.next(), "f")
+			if err := s.AddWithID(d.ID, d.Vec, d.Text, d.Meta); err != nil {
+				rep("own.add-error", err.Error())
+			}
+		}
+		var lockThere, secondOpened, reached bool
+		ctl.setTarget(point, 1, func(args []any) {
+			reached = true
+			lockThere = lockPresent(dir)
+			if s2, err := p.open(dir); err == nil {
+				secondOpened = true
+				s2.Close()
+			}
+		})
+		cerr := s.Close()
+		ctl.clearTarget()
+		if cerr != nil {
+			rep("own.close-error", cerr.Error())
+			return
+		}
+		if !reached {
+			r.Count("close-final-flush:point-not-reached:"+point, 1)
+			r.Inconclusive("final flush did not pass " + point)
+			return
+		}
+		if !lockThere {
+			rep("own.lock-released-before-close-finished", "the LOCK file was already gone while Close was still writing the final segment")
+		}
+		if secondOpened {
+			rep("own.second-open-succeeds", "a second Open succeeded while Close was still writing the final segment of the first handle")
+		}
+		if lockPresent(dir) {
+			rep("own.lock-left-after-close", "LOCK present after Close")
+		}
+		r.Count("close-final-flush:"+point, 1)
+		r.Eval(true, ev.Digest("cff", point, ci%2, ci))
+	})
 	ctl.uninstall()
 
 	// ------------------------------------------------------------------ another process
